@@ -54,6 +54,7 @@ func runC05(p *eng.Prog, r *eng.Report, tier string) {
 	// start.Attr[idx]): id, type and their indexes are taken from a range over
 	// the parameter itself, behind the empty-namespace test
 	idTypFromOwnAttributes(c, "C05.25")
+	c05TrackedSendKeepsTheStart(c, "C05.26")
 	// (no sync.Pool on today's tree: kept alive by the stored variant C05-r14-3)
 	c.r.Note("C05.23: %d Pool.Put calls", pooledStorageDoesNotEscape(c, "C05.23"))
 	nEnum := enumExhaustive(c, "C05.13", []string{"stanza"})
@@ -1109,4 +1110,35 @@ func c05ReplyFlushedAfterHandler(c *cx, id string) {
 		c.r.Check(id, f, "handler's output flushed before the rest of the element is discarded", "O: every path from the handler call to the discard of the remaining input passes deferWriter.Flush", cl.Pos(), g.MustPassBefore(g.After(hp), cp, isFlush, nil), "the reply stays in the buffer (and the output lock stays taken) until the peer has sent the rest of its element")
 	}
 	c.r.Floor(id, "discards of the rest of the element after the handler", n, 1)
+}
+
+// c05TrackedSendKeepsTheStart (C05.26): the tracked-send core sendResp puts the
+// caller's element on the wire as it is: the start element it hands to
+// SendElement is its own parameter, and it stores nothing into it. The content
+// namespace is the stanza encoder's business (C05.6/C05.17: it stamps the
+// stream's own namespace, also jabber:component:accept); a namespace chosen in
+// sendResp "client unless server" sends component stanzas as jabber:client.
+func c05TrackedSendKeepsTheStart(c *cx, id string) {
+	f := c.fn(id, "", "(*Session).sendResp")
+	if f == nil {
+		return
+	}
+	n := 0
+	for _, cl := range f.Calls("xmpp.Session.SendElement") {
+		if len(cl.Args) != 3 {
+			continue
+		}
+		n++
+		a := f.Norm(cl.Args[2], nil)
+		c.r.Check(id, f, "start element handed to SendElement", "P: the caller's start element (parameter 3) itself", cl.Pos(), a == "p3", "SendElement gets "+a)
+	}
+	c.r.Floor(id, "SendElement calls in sendResp", n, 1)
+	startParam := f.Sig().Params().At(3)
+	bad := ""
+	for _, w := range f.Writes() {
+		if v := rootLocal(f, w.LHS); v != nil && v == startParam {
+			bad = f.Prog.NodeStr(w.Stmt)
+		}
+	}
+	c.r.Check(id, f, "stores into the caller's start element", "W: sendResp does not edit the start element", f.Pos(), bad == "", bad+": what goes on the wire is not what the caller asked for")
 }
